@@ -188,7 +188,7 @@ def validate(ctx, cfg, tpath, tag):
     return {"kind": res["violated"], "line": line, "out": res["outfile"]}
 
 
-def hunt(ctx, cfg, behs, tag, signature_of, what_of, max_findings=12, live=True, families=None):
+def hunt(ctx, cfg, behs, tag, signature_of, what_of, max_findings=4, live=True, families=None):
     """Validate all histories; every violating history is re-executed alone in a fresh driver process and
     re-validated; reproduced ones are reported (ctx.violation), then removed and the rest is validated again,
     so that a known finding never hides a different one.  Returns rows of the first full run."""
